@@ -86,10 +86,10 @@ def spaces(tier, variant, seed):
     OPS = [("zub", n) for n in NB] + [("zrr", n) for n in (0, 1, 64, 65, 200)] + [("zum", m) for m in MODS] + \
           [("ubui", k) for k in (0, 1, 31, 32, 33, 63, 64)] + [("umui", m) for m in (1, 2, 3, 1 << 32, M, 1000003)] + \
           [("nub", n) for n in (1, 64, 65, 130)] + [("num", m) for m in (3, (1 << 64) + 1, (1 << 128) - 1, 1, 2, 1 << 63, 1 << 64, 1 << 128, (1 << 64) - 1)] + [("nrb", n) for n in (1, 2, 5)] + \
-          [("nrr", n) for n in (1, 2, 5)] + [("fub", n) for n in (1, 53, 64, 100, 256)] + [("reseed", s) for s in (7, (1 << 80) + 3)]
+          [("nrr", n) for n in (1, 2, 5)] + [("fub", n) for n in (1, 53, 64, 100, 256, 0, 192, 193, 257, 1000)] + [("reseed", s) for s in (7, (1 << 80) + 3)]
     if quick:
         OPS_D = [o for o in OPS if o in (("zub", 1), ("zub", 64), ("zub", 65), ("zub", 1000), ("zrr", 65), ("zum", 3), ("zum", (1 << 64) + 1), ("ubui", 33), ("ubui", 64), ("umui", 3),
-                                         ("umui", M), ("nub", 65), ("num", (1 << 64) + 1), ("num", 1 << 64), ("nrb", 2), ("nrr", 2), ("fub", 100), ("reseed", 7))]
+                                         ("umui", M), ("nub", 65), ("num", (1 << 64) + 1), ("num", 1 << 64), ("nrb", 2), ("nrr", 2), ("fub", 100), ("fub", 1000), ("fub", 0), ("reseed", 7))]
     else:
         OPS_D = OPS
 
@@ -163,14 +163,23 @@ def spaces(tier, variant, seed):
             return v
         if k == "fub":
             f = e["f"]
+            # the destination's previous contents must not show through: zero, a full-width all-ones mantissa, a short negative value
+            if pre == 1:
+                f.set_raw((1 << (64 * (f.s.prec + 1))) - 1, 3, False)
+            elif pre == 2:
+                f.set_raw(al.M, -2, True)
+            else:
+                f.set_raw(0, 0, False) if hasattr(f, "set_raw") else None
             f_fub(f.p, p, a)
             v = f.get()
             # (the mpf format of the result is C04's/C13's business, not asserted here)
             if not (0 <= v < 1):
                 R.fail("mpf_urandomb", "%s: nbits=%d gave %s" % (tag, a, float(v)))
             elif v != 0:
-                # at most nbits significant bits below the binary point
-                if (v * (1 << a)).denominator != 1:
+                # at most nbits significant bits below the binary point (0, or more than the variable holds, means all it holds)
+                room = 64 * (f.s.prec + 1)
+                eff = a if 0 < a <= room else room
+                if (v * (1 << eff)).denominator != 1:
                     R.fail("mpf_urandomb", "%s: nbits=%d gave more than nbits fractional bits" % (tag, a))
             return (v.numerator, v.denominator)
         if k == "reseed":
@@ -308,6 +317,45 @@ def spaces(tier, variant, seed):
         f_clear(p2)
         R.count("states", 2)
         return (ki, si % 7, adv)
+
+    # mpz_urandomm must be able to return values from the upper half of [0, n): for moduli whose upper half [2^(k-1), n) holds at
+    # least a third of the range, 96 draws without a single such value have probability below 2^-55 for a uniform generator
+    UM = [(1 << 65) - 1, (1 << 64) - 1, (1 << 128) - 1, 3 << 63, (1 << 65) + (1 << 64), (1 << 130) - 5, 7 << 61, (1 << 64) + (1 << 63) + 1, (3 << 126) + 1, (1 << 200) - 1, 1000003 << 50, (1 << 70) - (1 << 3)]
+
+    def um_cases(blk):
+        ki = blk
+        for mi in range(len(UM)):
+            for sd in (1, 77):
+                yield (ki, mi, sd)
+
+    def um_one(case, R):
+        ki, mi, sd = case
+        kind, m = KINDS[ki], UM[mi]
+        st1, p1 = mkstate(kind, sd)
+        e = env()
+        z, z1 = e["z"][0], e["z"][1]
+        z1.set(m)
+        half = 1 << (m.bit_length() - 1)
+        hi = lo = 0
+        for i in range(96):
+            z.set(-1, alloc=1)
+            f_zum(z.p, p1, z1.p)
+            v = z.get()
+            if not (0 <= v < m) or z.wf():
+                R.fail("mpz_urandomm", "%s modulus %x: %x out of range / ill-formed" % (kind, m, v))
+                break
+            if v >= half:
+                hi += 1
+            else:
+                lo += 1
+        f_clear(p1)
+        if hi == 0 or lo == 0:
+            R.fail("mpz_urandomm", "%s seed %d modulus %x: %d of 96 draws in the upper half [2^%d, n) and %d below it" % (kind, sd, m, hi, m.bit_length() - 1, lo))
+        R.count("states", 96)
+        return (ki, mi, hi > 20)
+
+    sp.append(Space("urandomm_reaches_both_halves", list(range(len(KINDS))), um_cases, um_one,
+                    "mpz_urandomm on 12 multi-limb moduli whose upper half holds at least a third of the range x generator kinds x 2 seeds: 96 draws hit both halves (declared statistical, failure probability below 2^-55 per case for a uniform generator)"))
 
     sp.append(Space("reseed_equals_fresh", [(ki, part) for ki in range(len(KINDS)) for part in range(4)], rs_cases, rs_one,
                     "a state seeded with s0, advanced by 0/1/100/700 words and seeded again with s gives the same 720 words (and a 1000-bit draw) as a fresh state seeded with s: s in 0..33, 5489, multi-limb seeds with bit 19936 set/clear"))
